@@ -27,7 +27,10 @@ def isMethodL (l : Lbl) (r : Err) : Bool :=
   match l.isSig with
   | some (perm, exist, notExist) =>
     (!r.isValueKind) && ((r.id = idErrPermission && perm) || (r.id = idErrExist && exist) || (r.id = idErrNotExist && notExist))
-  | none => false
+  | none =>
+    match l.stSig, r with
+    | some (c, m, nd), .leaf _ (.grpcStatus c' m' nd') => c = c' && m = m' && nd = nd'
+    | _, _ => false
 
 mutual
 def reachT : TTree → List TTree
@@ -65,8 +68,15 @@ theorem markT_shape (e : Err) : markT (shape e) = getMark Full e := by
 
 theorem isMethodL_label (e r : Err) : isMethodL (label e) r = isMethod e r := by
   cases e with
-  | leaf id k => cases k <;> simp [isMethodL, label, isSigOf, isMethod]
-  | _ => simp [isMethodL, label, isSigOf, isMethod]
+  | leaf id k =>
+    cases k with
+    | grpcStatus c m nd =>
+      simp only [isMethodL, label, isSigOf, stSigOf, isMethod]
+      cases r with
+      | leaf id2 k2 => cases k2 <;> simp
+      | _ => simp
+    | _ => simp [isMethodL, label, isSigOf, stSigOf, isMethod]
+  | _ => simp [isMethodL, label, isSigOf, stSigOf, isMethod]
 
 mutual
 theorem reachT_shape : (e : Err) → reachT (shape e) = (reach e).map shape
